@@ -14,6 +14,7 @@ package main
 
 import (
 	"encoding/json"
+	"errors"
 	"fmt"
 	"math/rand"
 	"net/netip"
@@ -66,6 +67,13 @@ type run struct {
 	round    int
 	relinked []map[string]any
 	quietAt  map[int]quietInfo // index in events -> round
+	// differing clocks (clocks.go): the offset of the wall clock of a router against the clock of this process (absent:
+	// none); muted: what the real Send emits right now is a template that is taken off the wire again, not traffic
+	clock map[int]time.Duration
+	muted bool
+	// the driver failed to make an announcement of another clock: the run is reported as broken and not judged
+	setupFailed bool
+	restamps    map[int]bool // routers whose re-stamping was checked against the real Send (offset 0 = byte-identical)
 }
 
 // idsOverride: identities for the next meshes (nil: the pooled identities, all of one continent)
@@ -104,6 +112,9 @@ func newRun(c *vf.Ctx, n int, edges []mesh.Edge, cfg func(i int) config.Store, d
 	r := &run{c: c, ms: ms, stampK: map[int]map[int64]int{}, flights: map[int]msg{}, annSent: map[int]int{}, desc: desc}
 	r.events = append(r.events, ms.Topo())
 	ms.W.OnSend = func(fl *world.Flight) {
+		if r.muted {
+			return
+		}
 		a, err := ms.Decode(fl.Data)
 		if err != nil || !a.IsAnn {
 			return
@@ -137,6 +148,24 @@ func (r *run) announce(o int) {
 	i := r.annSent[o] % len(links)
 	r.annSent[o]++
 	time.Sleep(2 * time.Millisecond) // distinct raw-signed stamps per origin
+	if off := r.clock[o]; off != 0 {
+		// a router whose clock differs: what Send makes of that clock (clocks.go)
+		r.events = append(r.events, map[string]any{"ev": "announce", "o": o, "k": r.annSent[o], "clock_ms": off.Milliseconds()})
+		r.steps = append(r.steps, fmt.Sprintf("announce %d (its clock: %s)", o, clockWords(off)))
+		if err := r.announceWithClock(o, off, links[i].Peer()); err != nil {
+			var re errRestamp
+			if errors.As(err, &re) {
+				// the driver could not make the announcement of that clock: no verdict
+				if !r.setupFailed {
+					r.c.Broken("announcement of router %d with its clock %s: %v", o, clockWords(off), err)
+				}
+				r.setupFailed = true
+			}
+			r.c.Extra("announce_error", err.Error())
+		}
+		r.c.Eval(1)
+		return
+	}
 	r.events = append(r.events, map[string]any{"ev": "announce", "o": o, "k": r.annSent[o]})
 	r.steps = append(r.steps, fmt.Sprintf("announce %d", o))
 	if err := n.Rt.AnnouncePing.Send(links[i].Peer()); err != nil {
@@ -241,7 +270,7 @@ func (r *run) finish(origins []int, perLink bool, rng *rand.Rand, maxDeliver int
 	if r.quietAt == nil {
 		r.quietAt = map[int]quietInfo{}
 	}
-	r.quietAt[len(r.events)] = quietInfo{round: r.round, relinked: r.relinked, links: r.ms.Topo()["links"]}
+	r.quietAt[len(r.events)] = quietInfo{round: r.round, relinked: r.relinked, links: r.ms.Topo()["links"], clocks: copyClocks(r.clock)}
 	r.events = append(r.events, map[string]any{"ev": "quiet", "tables": tables, "announced": origins})
 	return true
 }
@@ -289,7 +318,12 @@ func (b *batch) validate(c *vf.Ctx, label string) {
 	case "quiet":
 		what = "after the network drained some router has no route whose labels lead to another router that announced itself (or frames were left undelivered)"
 		kind = "reach"
-		if qi, ok := r.quietAt[idx-b.starts[ri]]; ok && qi.round > 0 {
+		if qi, ok := r.quietAt[idx-b.starts[ri]]; ok && len(qi.clocks) > 0 {
+			// honest routers whose clocks differ: say whose, and which routes are missing
+			what = fmt.Sprintf("honest routers whose wall clocks differ (%s; an announcement carries the sequence time and the expiry - clock + what Send adds - of the clock of its origin; every lag is well inside the hour m/table.go AddRoute grants 'routers that have time lag'), round %d: every router announced itself and the network drained: %s",
+				describeClocks(qi.clocks), qi.round+1, describeUnreached(ev, qi.links))
+			kind = "reach-clock-offset"
+		} else if ok && qi.round > 0 {
 			// a living mesh: say what happened to the links and which routes do not lead anywhere now
 			what = fmt.Sprintf("round %d of a living mesh (the same running routers; before this round: %s; then every router announced itself again and the network drained): %s",
 				qi.round+1, describeRelinks(qi.relinked), describeUnreached(ev, qi.links))
@@ -341,8 +375,8 @@ func toEdges(raw [][]int, rng *rand.Rand, big bool) []mesh.Edge {
 func main() { vf.Main("C09", "model_checking", run0) }
 
 func run0(c *vf.Ctx) {
-	c.Rule("M: TLC exhaustive over every delivery order for all 4 connected labelled 3-node graphs (all nodes announce) and all 38 connected labelled 4-node graphs (each single origin; thorough: each pair of origins), checking NoEcho, loop-free, once per path, at most three routes, Reach at quiescence and termination under fairness. R: every transition of those graphs replayed as a schedule on real router stacks. T: meshes of 5..16 routers in 7 families with random 1-/2-byte labels, varied router-info sizes, seeded random delivery orders; living meshes of 4..16 routers of the same families: rounds of (links lost and established again with other, the same or exchanged labels, sometimes another latency, sometimes announcements while they are away; all announce; drain; same judgement against the present links). distinct = distinct (family, size, label seed, schedule seed)")
-	c.Assume("honest routers only (C08 covers dishonest ones)", "announcements of one origin carry distinct millisecond stamps in replayed schedules (the driver spaces Send calls by 2 ms); equal stamps are tolerated by the trace spec in stage T", "exhaustive schedules only up to 4 routers")
+	c.Rule("M: TLC exhaustive over every delivery order for all 4 connected labelled 3-node graphs (all nodes announce) and all 38 connected labelled 4-node graphs (each single origin; thorough: each pair of origins), checking NoEcho, loop-free, once per path, at most three routes, Reach at quiescence and termination under fairness. R: every transition of those graphs replayed as a schedule on real router stacks. T: meshes of 5..16 routers in 7 families with random 1-/2-byte labels, varied router-info sizes, seeded random delivery orders; living meshes of 4..16 routers of the same families: rounds of (links lost and established again with other, the same or exchanged labels, sometimes another latency, sometimes announcements while they are away; all announce; drain; same judgement against the present links); meshes of the same families in which one, a few or all honest routers have a clock that is seconds up to just under an hour slow or fast (their announcements carry the sequence time and expiry of that clock, made from what the real Send emits; one or two rounds, slow clocks corrected in between; same judgement). distinct = distinct (family, size, label seed, schedule seed)")
+	c.Assume("honest routers only (C08 covers dishonest ones)", "announcements of one origin carry distinct millisecond stamps in replayed schedules (the driver spaces Send calls by 2 ms); equal stamps are tolerated by the trace spec in stage T", "exhaustive schedules only up to 4 routers", "clocks of honest routers differ by less than an hour (m/table.go AddRoute grants 'routers that have time lag' an expiry up to one hour in the past; a larger lag is not generated and nothing is claimed for it); a clock is never set back while the router runs")
 
 	// ---- M ----
 	mcs := []string{"GossipMesh_MC3.cfg", "GossipMesh_MC3p.cfg", "GossipMesh_MC4.cfg"}
@@ -678,6 +712,7 @@ func run0(c *vf.Ctx) {
 		gens[f.name] = f.gen
 	}
 	livingMeshes(c, rng, gens)
+	differingClocks(c, rng, gens)
 	concurrentRelays(c, rng)
 }
 
